@@ -1,0 +1,148 @@
+//! Verification hook (only compiled with `--cfg cfb_verif`): an instrumented
+//! wrapper around `std::sync::RwLock` that records, per thread, every
+//! acquisition and release together with the number of guards the thread
+//! already holds on that lock.  With the cfg off this module does not exist and
+//! the crate uses `std::sync` directly.
+
+use std::cell::Cell;
+use std::ops::{Deref, DerefMut};
+use std::panic::Location;
+use std::sync::Mutex;
+
+/// One lock event: (thread tag, kind, file, line, depth held before the event).
+/// kind: 'R' read acquire, 'W' write acquire, 'r' read release, 'w' write
+/// release, 'q' about to request a read, 'Q' about to request a write.
+pub type LockEvent = (u64, char, &'static str, u32, u32);
+
+thread_local! {
+    static DEPTH: Cell<u32> = const { Cell::new(0) };
+    static TAG: Cell<u64> = const { Cell::new(0) };
+}
+
+static TRACE: Mutex<Option<Vec<LockEvent>>> = Mutex::new(None);
+#[allow(clippy::type_complexity)]
+static PAUSE: Mutex<Option<Box<dyn Fn(&LockEvent) + Send + Sync>>> =
+    Mutex::new(None);
+
+/// Sets a tag identifying the current thread in recorded events.
+pub fn set_thread_tag(tag: u64) {
+    TAG.with(|t| t.set(tag));
+}
+
+/// Starts recording lock events (clearing any earlier record).
+pub fn trace_start() {
+    *TRACE.lock().unwrap() = Some(Vec::new());
+}
+
+/// Stops recording and returns the recorded events.
+pub fn trace_take() -> Vec<LockEvent> {
+    TRACE.lock().unwrap().take().unwrap_or_default()
+}
+
+/// Installs (or removes) a callback invoked before every lock request.
+pub fn set_pause_hook(hook: Option<Box<dyn Fn(&LockEvent) + Send + Sync>>) {
+    *PAUSE.lock().unwrap() = hook;
+}
+
+/// Number of guards of instrumented locks held by the current thread.
+pub fn held_depth() -> u32 {
+    DEPTH.with(|d| d.get())
+}
+
+fn record(kind: char, loc: &'static Location<'static>) {
+    let depth = DEPTH.with(|d| d.get());
+    let tag = TAG.with(|t| t.get());
+    let ev: LockEvent = (tag, kind, loc.file(), loc.line(), depth);
+    if kind == 'q' || kind == 'Q' {
+        if let Some(hook) = PAUSE.lock().unwrap().as_ref() {
+            hook(&ev);
+        }
+    }
+    if let Some(trace) = TRACE.lock().unwrap().as_mut() {
+        trace.push(ev);
+    }
+}
+
+pub struct RwLock<T>(std::sync::RwLock<T>);
+
+pub struct RwLockReadGuard<'a, T> {
+    inner: std::sync::RwLockReadGuard<'a, T>,
+    loc: &'static Location<'static>,
+}
+
+pub struct RwLockWriteGuard<'a, T> {
+    inner: std::sync::RwLockWriteGuard<'a, T>,
+    loc: &'static Location<'static>,
+}
+
+impl<T> RwLock<T> {
+    pub fn new(value: T) -> RwLock<T> {
+        RwLock(std::sync::RwLock::new(value))
+    }
+
+    #[track_caller]
+    pub fn read(&self) -> Result<RwLockReadGuard<'_, T>, String> {
+        let loc = Location::caller();
+        record('q', loc);
+        match self.0.read() {
+            Ok(inner) => {
+                record('R', loc);
+                DEPTH.with(|d| d.set(d.get() + 1));
+                Ok(RwLockReadGuard { inner, loc })
+            }
+            Err(_) => Err("poisoned".to_string()),
+        }
+    }
+
+    #[track_caller]
+    pub fn write(&self) -> Result<RwLockWriteGuard<'_, T>, String> {
+        let loc = Location::caller();
+        record('Q', loc);
+        match self.0.write() {
+            Ok(inner) => {
+                record('W', loc);
+                DEPTH.with(|d| d.set(d.get() + 1));
+                Ok(RwLockWriteGuard { inner, loc })
+            }
+            Err(_) => Err("poisoned".to_string()),
+        }
+    }
+
+    pub fn into_inner(self) -> Result<T, String> {
+        self.0.into_inner().map_err(|_| "poisoned".to_string())
+    }
+}
+
+impl<T> Deref for RwLockReadGuard<'_, T> {
+    type Target = T;
+    fn deref(&self) -> &T {
+        &self.inner
+    }
+}
+
+impl<T> Deref for RwLockWriteGuard<'_, T> {
+    type Target = T;
+    fn deref(&self) -> &T {
+        &self.inner
+    }
+}
+
+impl<T> DerefMut for RwLockWriteGuard<'_, T> {
+    fn deref_mut(&mut self) -> &mut T {
+        &mut self.inner
+    }
+}
+
+impl<T> Drop for RwLockReadGuard<'_, T> {
+    fn drop(&mut self) {
+        DEPTH.with(|d| d.set(d.get().saturating_sub(1)));
+        record('r', self.loc);
+    }
+}
+
+impl<T> Drop for RwLockWriteGuard<'_, T> {
+    fn drop(&mut self) {
+        DEPTH.with(|d| d.set(d.get().saturating_sub(1)));
+        record('w', self.loc);
+    }
+}
